@@ -323,9 +323,8 @@ func clientScenarios() []*spxScenario {
 				h.SpawnCaller(c19Spec("a", nil))
 				x.startEnv(
 					&harness.EnvThread{Name: "server", Steps: []harness.EnvStep{
-						{Kind: "inject", WaitHeaders: 1, Bytes: frames(peer.GoAway(1, 0, "bye"))},
-						{Kind: "inject", Bytes: frames(peer.Ping(false, [8]byte{7}))},
-						{Kind: "peerclose"},
+						// the PING's acknowledgement marks, in the client's own output, the point by which it has read the GOAWAY
+						{Kind: "inject", WaitHeaders: 1, Bytes: frames(peer.GoAway(1, 0, "bye"), peer.Ping(false, [8]byte{7}))},
 					}},
 					&harness.EnvThread{Name: "user", Steps: []harness.EnvStep{{Kind: "spawn-caller", Spec: c19Spec("b", nil)}}},
 					// the connection the client dials next: handshake, then an answer to each of its first two streams
@@ -333,6 +332,44 @@ func clientScenarios() []*spxScenario {
 						{Kind: "inject", Conn: 1, Bytes: frames(peer.Settings(), peer.SettingsAck())},
 						{Kind: "inject", Conn: 1, WaitHeaders: 1, Bytes: c19StaticResp(1, "n1")},
 						{Kind: "inject", Conn: 1, WaitHeaders: 2, Bytes: c19StaticResp(3, "n2")},
+					}},
+					&harness.EnvThread{Name: "server2", Steps: []harness.EnvStep{
+						{Kind: "inject", Conn: 2, Bytes: frames(peer.Settings(), peer.SettingsAck())},
+						{Kind: "inject", Conn: 2, WaitHeaders: 1, Bytes: c19StaticResp(1, "m1")},
+					}},
+					&harness.EnvThread{Name: "server3", Steps: []harness.EnvStep{
+						{Kind: "inject", Conn: 3, Bytes: frames(peer.Settings(), peer.SettingsAck())},
+					}},
+				)
+			}
+			return x
+		}},
+		{Name: "S15-graceful-double-goaway", Role: "client", Build: func() *spxInst {
+			h := c19Client(harness.ClientOpts{})
+			x := &spxInst{s: h.S, cl: h}
+			x.start = func() {
+				sc := h.Conns[0]
+				h.SpawnCaller(c19Spec("a", nil))
+				h.SpawnCaller(c19Spec("b", nil))
+				x.startEnv(
+					&harness.EnvThread{Name: "server", Steps: []harness.EnvStep{
+						// RFC 7540 6.8: announce the shutdown with 2^31-1, then say where it really ends
+						{Kind: "inject", WaitHeaders: 2, Bytes: frames(peer.GoAway(1<<31-1, 0, "shutting down"))},
+						{Kind: "inject", Bytes: frames(peer.GoAway(3, 0, "bye"), peer.Ping(false, [8]byte{7}))},
+						{Kind: "inject", Bytes: c19Resp(sc, 3, "first")},
+					}},
+					&harness.EnvThread{Name: "user", Steps: []harness.EnvStep{{Kind: "spawn-caller", Spec: c19Spec("c", nil)}}},
+					&harness.EnvThread{Name: "server1", Steps: []harness.EnvStep{
+						{Kind: "inject", Conn: 1, Bytes: frames(peer.Settings(), peer.SettingsAck())},
+						{Kind: "inject", Conn: 1, WaitHeaders: 1, Bytes: c19StaticResp(1, "n1")},
+						{Kind: "inject", Conn: 1, WaitHeaders: 2, Bytes: c19StaticResp(3, "n2")},
+					}},
+					&harness.EnvThread{Name: "server2", Steps: []harness.EnvStep{
+						{Kind: "inject", Conn: 2, Bytes: frames(peer.Settings(), peer.SettingsAck())},
+						{Kind: "inject", Conn: 2, WaitHeaders: 1, Bytes: c19StaticResp(1, "m1")},
+					}},
+					&harness.EnvThread{Name: "server3", Steps: []harness.EnvStep{
+						{Kind: "inject", Conn: 3, Bytes: frames(peer.Settings(), peer.SettingsAck())},
 					}},
 				)
 			}
